@@ -78,14 +78,15 @@ def run(ctx):
     for s in ('Polling.Active', 'Recovery.Active', 'Hot Reset.Active'):
         ctx.ob('C41.entry-set', 'LTSSM.entry.' + s, s in entries, None, '%s must be an entry state that clears ts2_seen' % s)
     # (d) reset priority
-    rstate = None
-    for s in fsm.states:
-        es = [e for e in fsm.out_edges(s) if q.atoms(e) == {(RST, True)}]
-        if es:
-            rstate = es[0].dst
+    # the warm-reset edges: those that require in_usb_reset; their (common) target is the reset state.  An edge that
+    # requires more than the level of in_usb_reset (an edge detector, a qualifier) is still a reset edge -- and is then
+    # judged by the outcome obligation below, which frees everything except in_usb_reset
+    import collections
+    tgt = collections.Counter(e.dst for e in fsm.edges if (RST, True) in q.atoms(e))
+    rstate = tgt.most_common(1)[0][0] if tgt else None
     ctx.need(rstate == init, 'warm reset target is the initial state')
     for s in fsm.states:
-        has_edge = any(q.atoms(e) == {(RST, True)} and e.dst == rstate for e in fsm.out_edges(s))
+        has_edge = any((RST, True) in q.atoms(e) and e.dst == rstate for e in fsm.out_edges(s))
         if s == rstate:
             o = state_outcomes(fsm, s, {RST: True})
             ctx.ob('C41.reset-holds', 'LTSSM.reset-state', set(o) == {None}, fsm.state_loc[s],
@@ -93,7 +94,7 @@ def run(ctx):
             continue
         if not has_edge:
             # may not reach U0 without passing a state that has the edge; and must not be U0 itself
-            r = reachable(fsm, s, stop={x for x in fsm.states if any(q.atoms(e) == {(RST, True)} for e in fsm.out_edges(x))})
+            r = reachable(fsm, s, stop={x for x in fsm.states if any((RST, True) in q.atoms(e) and e.dst == rstate for e in fsm.out_edges(x))})
             ctx.ob('C41.reset-coverage', 'LTSSM.%s' % s, u0 not in r and s != u0, fsm.state_loc[s],
                    'state %s has no warm-reset edge yet can reach U0 directly' % s)
             continue
